@@ -49,9 +49,9 @@ type c10env struct {
 		Timeout(gorums.ServerCtx, *hotstuffpb.TimeoutMsg)
 		RequestBlock(gorums.ServerCtx, *hotstuffpb.BlockHash) (*hotstuffpb.Block, error)
 	}
-	known  *hotstuff.Block
-	rng    *rand.Rand
-	state  string
+	known *hotstuff.Block
+	rng   *rand.Rand
+	state string
 }
 
 var blsSigner *hx.Sec
